@@ -3,6 +3,7 @@ import FrappyProofs.Lemmas.CompatLawsRat
 import FrappyProofs.Lemmas.CopyHeap
 import FrappyProofs.Lemmas.DatainfoOpt
 import FrappyProofs.Lemmas.DatainfoSnap
+import FrappyProofs.Lemmas.CommandInfo
 import FrappyProofs.Lemmas.Variants
 import FrappyProofs.Lemmas.CompatRefl
 import FrappyModel.Generated.C03
@@ -127,6 +128,31 @@ theorem snapLimits_aligned (D : Consts F) (dt : DInfo F) (hwf : dt.WF D) (hex : 
 /-- the monitors' test "is this tree in the quantifier" is the hypothesis `Exportable` of the theorems -/
 theorem exportableB_iff_exportable (dt : DInfo F) : dt.exportableB = true ↔ dt.Exportable :=
   exportableB_iff dt
+
+/-- commands: the description of a `CommandType` whose argument / result are well-formed exportable trees (or `None`)
+is rebuilt by `get_datatype` — and `CommandType.copy()`, which is the inherited `DataType.copy`, gives the very same
+command — into a command that exports the identical description again, has an argument / a result exactly where the
+original has one, and whose argument and result validate / import like the original's. -/
+theorem command_rebuild_equiv (D : Consts F) (hD : D.OK) (c : CmdInfo F)
+    (hwf : ∀ t, c.argument = some t ∨ c.result = some t → t.WF D ∧ t.Exportable) :
+    ∃ j c', exportCommand D c = .ok j ∧ getCommand D j = .ok c' ∧ copyCommand D c = .ok c' ∧
+      exportCommand D c' = .ok j ∧ SameOpt c'.argument c.argument ∧ SameOpt c'.result c.result := by
+  have comp : ∀ x : Option (DInfo F), (∀ t, x = some t → t.WF D ∧ t.Exportable) →
+      ∃ jx x', OptRebuilt D x jx x' := by
+    intro x hx
+    cases x with
+    | none => exact ⟨none, none, optRebuilt_none D⟩
+    | some t =>
+      obtain ⟨w, e⟩ := hx t rfl
+      obtain ⟨j, t', h1, h2, h3, h4, h5⟩ := rebuild_equiv D hD t w e
+      exact ⟨some j, some t', optRebuilt_some D h1 h2 h3 h4 h5⟩
+  obtain ⟨ja, a', ea, ga, ea', sa⟩ := comp c.argument (fun t h => hwf t (Or.inl h))
+  obtain ⟨jr, r', er, gr, er', sr⟩ := comp c.result (fun t h => hwf t (Or.inr h))
+  have hex : exportCommand D c =
+      .ok (.obj ([("type", .str "command")] ++ optItem "argument" ja ++ optItem "result" jr)) := by
+    simp only [exportCommand, ea, er]
+  have hget := getCommand_export D ga gr
+  exact ⟨_, ⟨a', r'⟩, hex, hget, by simp only [copyCommand, hex, hget], by simp only [exportCommand, ea', er'], sa, sr⟩
 
 /-! ## compatibility verdicts -/
 
@@ -507,6 +533,18 @@ example : GridStable Rat ∧
   have f1 : isFinite (-3/10 : Rat) = true := by decide +kernel
   have f2 : isFinite (7/10 : Rat) = true := by decide +kernel
   exact ⟨rat_gridStable, by simp [DInfo.snapLimits, h1, h2, f1, f2], by unfold DInfo.Aligned; decide +kernel⟩
+
+/-- the hypothesis of `command_rebuild_equiv` is met by `CommandType(IntRange(1, 2), BoolType())` and by `CommandType()` -/
+example : (∀ t, (⟨some (.int 1 2), some .bool⟩ : CmdInfo Rat).argument = some t ∨
+      (⟨some (.int 1 2), some .bool⟩ : CmdInfo Rat).result = some t → t.WF ⟨0, 0, 0⟩ ∧ t.Exportable) ∧
+    (∀ t, (⟨none, none⟩ : CmdInfo Rat).argument = some t ∨ (⟨none, none⟩ : CmdInfo Rat).result = some t →
+      t.WF ⟨0, 0, 0⟩ ∧ t.Exportable) := by
+  refine ⟨?_, ?_⟩
+  · intro t h
+    rcases h with h | h <;> simp only [Option.some.injEq] at h <;> subst h <;>
+      simp [DInfo.WF, DType.WF, DType.intLimit, DInfo.Exportable]
+  · intro t h
+    rcases h with h | h <;> cases h
 
 /-- … and `compatible_complete` applies to a container pair with nested members -/
 example : ∃ (a b : DType Rat), a.WF ∧ b.WF ∧ GridAligned a ∧ GridAligned b ∧ Nested a b :=
